@@ -336,7 +336,7 @@ func (p *Prelude) buildQuery(o *Obligation, wantModel bool, sizeCap int) string 
 					consts[t.Op] = t.Sort
 				}
 			} else if _, isFun := u.Specs.Funs[t.Op]; !isFun {
-				if !(mode == "str" && (strNative[t.Op] != "" || t.Op == "s.byte")) {
+				if !(mode == "str" && (strNative[t.Op] != "" || t.Op == "s.byte" || t.Op == "bytestr")) {
 					var as []string
 					for _, a := range t.Args {
 						as = append(as, a.Sort)
@@ -429,6 +429,16 @@ func (p *Prelude) buildQuery(o *Obligation, wantModel bool, sizeCap int) string 
 	}
 	if len(tcs) > 1 {
 		fmt.Fprintf(&constDecl, "(assert (distinct %s))\n", strings.Join(tcs, " "))
+	}
+	// named functions are pairwise distinct non-nil function values
+	fns := []string{"fn_nil"}
+	for _, name := range sortedKeys(consts) {
+		if consts[name] == SFn && strings.HasPrefix(name, "fn.") {
+			fns = append(fns, name)
+		}
+	}
+	if len(fns) > 1 {
+		fmt.Fprintf(&constDecl, "(assert (distinct %s))\n", strings.Join(fns, " "))
 	}
 
 	// body ------------------------------------------------------------------
